@@ -36,13 +36,17 @@ def count_points(kind, n):
 KMAX = {kind: count_points(kind, 4) + 2 for kind in (3, 4, 5)}
 
 
-def run(kind, n, poison, fault, k, pipemode):
+PK = 12         # parent-side statements inside terminate() at which the caller may be slow (fault 3)
+K3 = 14         # child-side statements after the wake-up at which the child may be slow (fault 3)
+
+
+def run(kind, n, poison, fault, k, pipemode, pk=0):
     """Returns (signature or None, interesting)."""
     T.reset()
-    W = wsim.World(server=wsim.is_remote_kind(kind))
+    W = wsim.World(server=wsim.is_remote_kind(kind), parent_points=(fault == 3))
     phase = [""]
     try:
-        sig, interesting = _run(W, kind, n, poison, fault, k, pipemode, phase)
+        sig, interesting = _run(W, kind, n, poison, fault, k, pipemode, phase, pk)
         return (None if sig is None else sig + phase[0]), interesting
     finally:
         errs = W.close()
@@ -50,9 +54,14 @@ def run(kind, n, poison, fault, k, pipemode):
             raise RuntimeError("simulation kernel errors: %r" % (errs,))
 
 
-def _run(W, kind, n, poison, fault, k, pipemode, phase):
+def _run(W, kind, n, poison, fault, k, pipemode, phase, pk=0):
     if True:
-        L = wsim.Landing(W, kind, k, action=("hold" if fault == 1 else "kill")) if fault else None
+        if fault == 3:
+            # an idle worker is terminated by a caller that is slow at its pk-th statement inside terminate(), while the child is
+            # slow at the k-th statement it executes after being woken up (armed below, once the child is idle)
+            L = wsim.Landing(W, kind, -1, action="delay", delay=3.0)
+        else:
+            L = wsim.Landing(W, kind, k, action=("hold" if fault == 1 else "kill")) if fault else None
         kw = {}
         pipe = None
         if pipemode:
@@ -72,7 +81,14 @@ def _run(W, kind, n, poison, fault, k, pipemode, phase):
             except WorkerClosedError:
                 break
         try:
-            if fault:
+            if fault == 3:
+                W.sim.sleep(3)                      # everything enqueued has been processed; the child waits for input
+                L.k = L.count + k
+                PD = wsim.ParentDelay(W, ".terminate:", pk, delay=2.0)
+                phase[0] = "|idle-worker-terminated-by-a-slow-caller"
+                w.terminate(timeout=TMO)
+                landed = L.landed and PD.fired
+            elif fault:
                 landed = L.wait()
                 if landed and wsim.is_thread_kind(kind) and getattr(w, "_result", None) is not None:
                     phase[0] = "|landing-after-outcome-recorded"      # i.e. in the finally block of _run / in _cleanup
@@ -147,15 +163,18 @@ def _run(W, kind, n, poison, fault, k, pipemode, phase):
 
 
 def make_h(kind):
-    def h(n, poison, fault, k, pipemode):
+    def h(n, poison, fault, k, pipemode, pk=0):
         with notrace():
             n_ = conc(n, 6)
             poison_ = conc(poison, n_ + 1) - 1
-            fault_ = conc(fault, 3)
-            k_ = conc(k, KMAX[kind] + 1) if fault_ else 0
+            fault_ = conc(fault, 4)
+            if fault_ == 3:
+                k_, pk_ = conc(k, K3), conc(pk, PK)
+            else:
+                k_, pk_ = (conc(k, KMAX[kind] + 1) if fault_ else 0), 0
             pipemode_ = conc(pipemode, 2)
-            ev("c06", wsim.KIND_NAMES[kind], n_, poison_, fault_, k_, pipemode_)
-            sig, interesting = run(kind, n_, poison_, fault_, k_, pipemode_)
+            ev("c06", wsim.KIND_NAMES[kind], n_, poison_, fault_, k_, pipemode_, pk_)
+            sig, interesting = run(kind, n_, poison_, fault_, k_, pipemode_, pk_)
             if sig is not None:
                 sig = "%s|%s" % (sig, wsim.KIND_NAMES[kind])
             return Outcome(sig, interesting, "")
@@ -177,14 +196,16 @@ _FUNCS = ["pyworkers.persistent:PersistentWorker.next_result", "pyworkers.persis
 
 def _harness(kind):
     name = wsim.KIND_NAMES[kind]
-    params = OrderedDict([("n", (0, 5)), ("poison", (0, 5)), ("fault", (0, 2)), ("k", (0, KMAX[kind])), ("pipemode", (0, 1))])
+    params = OrderedDict([("n", (0, 5)), ("poison", (0, 5)), ("fault", (0, 3)), ("k", (0, KMAX[kind])), ("pipemode", (0, 1)), ("pk", (0, PK - 1))])
     flt = (lambda f: f["fault"] != 2) if wsim.is_thread_kind(kind) else None
-    quick = {"ranges": {"n": (0, 2), "poison": (0, 2)}, "partition": ["fault", "n", "pipemode"], "timeout": 300, "twin_fixed": {"fault": 1, "n": 2, "pipemode": 0}}
+    pre3 = ["fault == 3 or pk == 0", "fault != 3 or (poison == 0 and k < %d)" % K3]
+    quick = {"ranges": {"n": (0, 2), "poison": (0, 2)}, "partition": ["fault", "n", "pipemode"], "timeout": 300, "twin_fixed": {"fault": 1, "n": 2, "pipemode": 0},
+             "extra_pre": pre3}
     thorough = {"ranges": {"n": (0, 4), "poison": (0, 4)}, "partition": ["fault", "n", "pipemode", "poison"], "timeout": 1500,
-                "twin_fixed": {"fault": 1, "n": 2, "pipemode": 0, "poison": 0}}
-    if flt:
-        quick["filter"] = flt
-        thorough["filter"] = flt
+                "twin_fixed": {"fault": 1, "n": 2, "pipemode": 0, "poison": 0}, "extra_pre": pre3}
+    thread = wsim.is_thread_kind(kind)
+    quick["filter"] = (lambda f: not (thread and f["fault"] == 2) and not (f["fault"] == 3 and f["n"] != 1))
+    thorough["filter"] = (lambda f: not (thread and f["fault"] == 2) and not (f["fault"] == 3 and (f["n"] > 2 or f["poison"] != 0)))
     return Harness(name, "vf.props.c06:h_%s" % name, params, tiers={"quick": quick, "thorough": thorough}, functions=_FUNCS)
 
 
@@ -195,9 +216,11 @@ SPEC = PropSpec(
     assumptions=[
         "simulation model of C01; items are enqueued before the fault lands; the fault lands at the k-th injection point of the child (for the "
         "remote kind the landing actor is the backend process' main thread; the frontend forwarding code is instrumented and runs for real)",
+        "fault 3: every item has been processed and the worker is idle; terminate() is called by a caller that sleeps 2 model seconds at its pk-th "
+        "statement inside terminate() while the child sleeps 3 model seconds at the k-th statement it executes after the wake-up",
         "the multiplexing consumer is modelled as the Pool reads a pipe: recv() until an end marker or EOFError on a caller-supplied utils.Pipe()",
     ],
-    outside=["sub-statement landing points", "more than 5 items", "kills landing in the parent-side forwarding thread (it is a thread of the parent)"],
+    outside=["fault 3 beyond 'caller slow at one statement of terminate(), child slow at one statement after its wake-up'", "sub-statement landing points", "more than 5 items", "kills landing in the parent-side forwarding thread (it is a thread of the parent)"],
     stubs=["vf/simos.py"],
     technique="CrossHair/z3 bounded symbolic execution over a deterministic simulation of the real worker code",
 )
